@@ -75,6 +75,21 @@ def decSpec (j : Json) : Except String Spec := do
   | "str" => return .str (← str j "str")
   | "strs" => return .strs (← strs j "strs")
   | "mixed" => return .mixed
+  | "seq" =>
+    let a ← arr j "items"
+    let items ← a.toList.mapM fun it => do
+      let p ← it.getArr?
+      if h : p.size = 2 then
+        let t ← p[0].getStr?
+        match t with
+        | "int" => return Item.int (← p[1].getInt?)
+        | "bool" => return Item.bool (← p[1].getBool?)
+        | "npint" => return Item.npInt (← p[1].getInt?)
+        | "float" => return Item.float
+        | "str" => return Item.str (← p[1].getStr?)
+        | _ => return Item.other
+      else throw "item must be [type, value]"
+    return .seq items
   | "other" => return .other
   | k => throw s!"unknown spec kind {k}"
 
